@@ -15,6 +15,8 @@ Definition bytes (s : string) : list N :=
 Inductive eng_case := Eng (rules : list pexpr) (root : pexpr) (data : list N) (offset : N) (flags : N).
 
 Definition FUEL : nat := N.to_nat 3000.
+(* recursion depth allowed for one case: 3000 plus 40 per input byte (Many over n items nests a few levels per item) *)
+Definition fuel_of (inp : input) : nat := N.to_nat (3000 + 40 * i_len inp).
 
 (* ---- rendering ---- *)
 (* the bytes of the file from [p] to [r]: the lexeme of a literal node (whitespace trimmed by a
@@ -146,19 +148,20 @@ Definition o_evaluated (fs : fileset) (o : outcome Top.evaluated) : obs :=
     | Top.EvEvalErr e => OT "EErr" [obs_outcome OS (error_with_position fs (cause_msg (ecause e)) (epos e))]
     end) o.
 Definition o_eval (inp : input) (fs : fileset) (rules : list pexpr) (root : pexpr) : obs :=
-  OT "Ev" [o_evaluated fs (Top.evaluate inp rules FUEL (sentence root));
-           o_evaluated fs (Top.evaluate inp rules FUEL root)].
+  OT "Ev" [o_evaluated fs (Top.evaluate inp rules (fuel_of inp) (sentence root));
+           o_evaluated fs (Top.evaluate inp rules (fuel_of inp) root)].
 
 Definition eng_expected (c : eng_case) : obs :=
   match c with
   | Eng rules root data offset flags =>
     let inp := eng_input data offset in
     let fs := new_fileset (eng_files data offset) in
-    OT "Eng" ([o_raw inp (run inp rules FUEL root);
-               o_top inp true fs (parse_top inp rules FUEL (sentence root));
-               o_top inp false fs (parse_top inp rules FUEL root)] ++
+    let fuel := fuel_of inp in
+    OT "Eng" ([o_raw inp (run inp rules fuel root);
+               o_top inp true fs (parse_top inp rules fuel (sentence root));
+               o_top inp false fs (parse_top inp rules fuel root)] ++
               (if N.testbit flags 0
-               then [o_raw inp (run inp (map strip_memo rules) FUEL (strip_memo root))]
+               then [o_raw inp (run inp (map strip_memo rules) fuel (strip_memo root))]
                else []) ++
               (if N.testbit flags 2 then [o_eval inp fs rules root] else []))
   end.
